@@ -78,8 +78,8 @@ MUTATORS = ['remove', 'put', 'down', 'frozen', 'up_from_down',
 
 def subharnesses(tier):
     subs = []
-    topos = ['T3'] if tier == 'quick' else ['T3', 'T4', 'T1']
-    Ds = [2] if tier == 'quick' else [2, 3]
+    topos = ['T3'] if tier == 'quick' else ['T3', 'T4']
+    Ds = [2]
     for topo in topos:
         ns = len(g1.TOPOS[topo][1])
         for D in Ds:
@@ -99,14 +99,16 @@ def subharnesses(tier):
                         spec['servers'][j]['state'] = 'frozen'
                     subs.append(('step-%s-D%d-%s-s%d' % (topo, D, m, j), spec))
     # ---- (b) probes
-    ptopos = ['T2'] if tier == 'quick' else ['T3', 'T4', 'T2']
+    ptopos = ['T2'] if tier == 'quick' else ['T3', 'T2']
     for topo in ptopos:
         ns = len(g1.TOPOS[topo][1])
         residents = [(0, 1), (0, None)] if tier == 'quick' else \
-            [(0, 1), (0, None), (2, 0), (1, 1), (None, None), (2, 2)]
-        for res in residents:
-            for pv in ('plain', 'prio', 'trait', 'affinity', 'lease', 'partition',
-                       'behind_unplaceable', 'after_remove', 'after_down_up'):
+            [(0, 1), (0, None), (1, 1)]
+        for res in (residents if ns == 2 else [(0, 1)]):
+            for pv in (('plain', 'prio', 'trait', 'affinity', 'lease',
+                        'partition', 'behind_unplaceable', 'after_remove',
+                        'after_down_up') if ns == 2 else
+                       ('plain', 'trait', 'after_remove')):
                 servers = [{} for _ in range(ns)]
                 apps = [{'place': j} for j in res]
                 probe = {}
